@@ -325,7 +325,7 @@ def Chan.trySend (c : Chan) (cap : Nat) (overflow : Bool) (e : Entry) : Chan × 
       | [] => ({ c with sub := [e] }, .ok none)               -- capacity 0 cannot be configured
       | old :: rest =>
         let c := { c with sub := rest ++ [e] }
-        if c.used.getD old.chunk false then (c, .ok (some old.chunk))
+        if c.used.getD old.chunk false then ({ c with used := c.used.set old.chunk false }, .ok (some old.chunk))
         else (c, .corrupted)
     else ({ c with sub := c.sub ++ [e] }, .ok none)
 
@@ -881,304 +881,356 @@ def totalQueued : List ((Pid × Pid) × Conn) → Nat
   | (_, c) :: r => chansQueued c.chans + totalQueued r
 
 /-- the loop of `PendingResponse::receive`: responses of other requests are dropped -/
-def pendingReceive (w : World) (c : Nat) (p : Pending) : Nat → World × Option RecvRes
+def pendingReceive (w : World) (c ch rid : Nat) : Nat → World × Option RecvRes
   | 0 => (w, some .none)
   | fuel + 1 =>
     let w := clientUpdate w c
     if w.panicked then (w, none) else
-    match rcvReceive w (cid c) p.channel with
+    match rcvReceive w (cid c) ch with
     | (w, .none) => (w, some .none)
     | (w, .maxBorrow) => (w, some .maxBorrow)
     | (w, .some h m) =>
-      if m.rid ≠ p.rid then pendingReceive (rcvRelease w (cid c) h) c p fuel
+      if m.rid ≠ rid then pendingReceive (rcvRelease w (cid c) h) c ch rid fuel
       else (w, some (.some h m))
 
-def step (w : World) : Op → World × String
-  | .cclient c ma =>
-    if (getCl w c).isSome then (w, "dup") else
-    -- `Client::new`
-    let active := match ma with | some m => clamp1 m | none => w.cfg.maxActive
-    if w.cfg.maxActive < active then (w, "err:MaxActiveRequestsExceedsMaxSupportedActiveRequestsOfService") else
-    let n := w.cfg.clientChunks w.cfg.maxLoans active
-    let S : Snd := { n := n, free := List.range n, rc := List.replicate n 0,
-                     maxLoans := w.cfg.maxLoans + w.cfg.maxActive + w.cfg.maxActive,
-                     conns := List.replicate w.cfg.maxServers none, nChan := 1, init := .id 0 false,
-                     overflow := w.cfg.ovReq, rMaxBorrow := w.cfg.maxActive }
-    let R : Rcv := { conns := List.replicate w.cfg.maxServers none,
-                     storage := SlotMap.init (w.cfg.cExpired + w.cfg.maxServers), tbrCap := w.cfg.cExpired,
-                     nChan := w.cfg.nChannels, init := .closed, cap := w.cfg.respBuf,
-                     overflow := w.cfg.ovResp, maxBorrow := w.cfg.maxBorrow }
-    let C : Client := { maxActive := active, snapCtr := w.serverReg.counter, snap := w.serverReg.slots,
-                        chanIds := List.range n }
-    let w1 := clientForceUpdate (setRcv (setSnd (setCl w c C) (cid c) S) (cid c) R) c
-    match w1.clientReg.add (c, n), getCl w1 c with
-    | some (reg, slot), some C1 => finishPanic w ({ setCl w1 c { C1 with slot := slot } with clientReg := reg }, "ok")
-    | _, _ =>
-      -- the port is dropped again: its connections are closed, nothing else remains
-      let w2 := portDestroy w1 (cid c)
-      finishPanic w ({ w2 with clients := AMap.del w2.clients c, snds := AMap.del w2.snds (cid c), rcvs := AMap.del w2.rcvs (cid c) },
-                     "err:ExceedsMaxSupportedClients")
-  | .dclient c =>
-    match getCl w c with
-    | none => (w, "none")
-    | some C =>
-      if !C.alive then (w, "none") else
-      (clientDestroyIfUnreferenced (setCl w c { C with alive := false }) c, "ok")
-  | .cserver s ml =>
-    if (getSv w s).isSome then (w, "dup") else
-    -- `Server::new`
-    let lpr := match ml with | some m => clamp1 m | none => w.cfg.defLoanPerReq
-    let n := w.cfg.serverChunks lpr
-    let S : Snd := { n := n, free := List.range n, rc := List.replicate n 0,
-                     maxLoans := lpr * w.cfg.maxActive * w.cfg.maxClients,
-                     conns := List.replicate w.cfg.maxClients none, nChan := w.cfg.nChannels, init := .closed,
-                     overflow := w.cfg.ovResp, rMaxBorrow := w.cfg.maxBorrow }
-    let R : Rcv := { conns := List.replicate w.cfg.maxClients none,
-                     storage := SlotMap.init (w.cfg.sExpired + w.cfg.maxClients), tbrCap := w.cfg.sExpired,
-                     nChan := 1, init := .id 0 false, cap := w.cfg.maxActive,
-                     overflow := w.cfg.ovReq, maxBorrow := w.cfg.maxActive }
-    let V : Server := { loanPerReq := lpr, snapCtr := w.clientReg.counter, snap := w.clientReg.slots }
-    let w1 := serverForceUpdate (setRcv (setSnd (setSv w s V) (sid s) S) (sid s) R) s
-    match w1.serverReg.add (s, n), getSv w1 s with
-    | some (reg, slot), some V1 => finishPanic w ({ setSv w1 s { V1 with slot := slot } with serverReg := reg }, "ok")
-    | _, _ =>
-      let w2 := portDestroy w1 (sid s)
-      finishPanic w ({ w2 with servers := AMap.del w2.servers s, snds := AMap.del w2.snds (sid s), rcvs := AMap.del w2.rcvs (sid s) },
-                     "err:ExceedsMaxSupportedServers")
-  | .dserver s =>
-    match getSv w s with
+def updActive (w : World) (s a : Nat) (f : Active → Active) : World :=
+  match getSv w s with
+  | some V => setSv w s { V with actives := V.actives.map fun x => if x.label = a then f x else x }
+  | none => w
+
+/-- `Client::new` -/
+def opCClient (w : World) (c : Nat) (ma : Option Nat) : World × String :=
+  if (getCl w c).isSome then (w, "dup") else
+  let active := match ma with | some m => clamp1 m | none => w.cfg.maxActive
+  if w.cfg.maxActive < active then (w, "err:MaxActiveRequestsExceedsMaxSupportedActiveRequestsOfService") else
+  let n := w.cfg.clientChunks w.cfg.maxLoans active
+  let S : Snd := { n := n, free := List.range n, rc := List.replicate n 0,
+                   maxLoans := w.cfg.maxLoans + w.cfg.maxActive + w.cfg.maxActive,
+                   conns := List.replicate w.cfg.maxServers none, nChan := 1, init := .id 0 false,
+                   overflow := w.cfg.ovReq, rMaxBorrow := w.cfg.maxActive }
+  let R : Rcv := { conns := List.replicate w.cfg.maxServers none,
+                   storage := SlotMap.init (w.cfg.cExpired + w.cfg.maxServers), tbrCap := w.cfg.cExpired,
+                   nChan := w.cfg.nChannels, init := .closed, cap := w.cfg.respBuf,
+                   overflow := w.cfg.ovResp, maxBorrow := w.cfg.maxBorrow }
+  let C : Client := { maxActive := active, snapCtr := w.serverReg.counter, snap := w.serverReg.slots,
+                      chanIds := List.range n }
+  let w1 := clientForceUpdate (setRcv (setSnd (setCl w c C) (cid c) S) (cid c) R) c
+  match w1.clientReg.add (c, n), getCl w1 c with
+  | some (reg, slot), some C1 => finishPanic w ({ setCl w1 c { C1 with slot := slot } with clientReg := reg }, "ok")
+  | _, _ =>
+    -- the port is dropped again: its connections are closed, nothing else remains
+    let w2 := portDestroy w1 (cid c)
+    finishPanic w ({ w2 with clients := AMap.del w2.clients c, snds := AMap.del w2.snds (cid c), rcvs := AMap.del w2.rcvs (cid c) },
+                   "err:ExceedsMaxSupportedClients")
+
+def opDClient (w : World) (c : Nat) : World × String :=
+  match getCl w c with
+  | none => (w, "none")
+  | some C =>
+    if !C.alive then (w, "none") else
+    (clientDestroyIfUnreferenced (setCl w c { C with alive := false }) c, "ok")
+
+/-- `Server::new` -/
+def opCServer (w : World) (s : Nat) (ml : Option Nat) : World × String :=
+  if (getSv w s).isSome then (w, "dup") else
+  let lpr := match ml with | some m => clamp1 m | none => w.cfg.defLoanPerReq
+  let n := w.cfg.serverChunks lpr
+  let S : Snd := { n := n, free := List.range n, rc := List.replicate n 0,
+                   maxLoans := lpr * w.cfg.maxActive * w.cfg.maxClients,
+                   conns := List.replicate w.cfg.maxClients none, nChan := w.cfg.nChannels, init := .closed,
+                   overflow := w.cfg.ovResp, rMaxBorrow := w.cfg.maxBorrow }
+  let R : Rcv := { conns := List.replicate w.cfg.maxClients none,
+                   storage := SlotMap.init (w.cfg.sExpired + w.cfg.maxClients), tbrCap := w.cfg.sExpired,
+                   nChan := 1, init := .id 0 false, cap := w.cfg.maxActive,
+                   overflow := w.cfg.ovReq, maxBorrow := w.cfg.maxActive }
+  let V : Server := { loanPerReq := lpr, snapCtr := w.clientReg.counter, snap := w.clientReg.slots }
+  let w1 := serverForceUpdate (setRcv (setSnd (setSv w s V) (sid s) S) (sid s) R) s
+  match w1.serverReg.add (s, n), getSv w1 s with
+  | some (reg, slot), some V1 => finishPanic w ({ setSv w1 s { V1 with slot := slot } with serverReg := reg }, "ok")
+  | _, _ =>
+    let w2 := portDestroy w1 (sid s)
+    finishPanic w ({ w2 with servers := AMap.del w2.servers s, snds := AMap.del w2.snds (sid s), rcvs := AMap.del w2.rcvs (sid s) },
+                   "err:ExceedsMaxSupportedServers")
+
+def opDServer (w : World) (s : Nat) : World × String :=
+  match getSv w s with
+  | none => (w, "none")
+  | some S =>
+    if !S.alive then (w, "none") else
+    (serverDestroyIfUnreferenced (setSv w s { S with alive := false }) s, "ok")
+
+/-- `RequestMut::send` -> `ClientSharedState::send_request` once the limit check has passed:
+`update_connections`, `prepare_channel_to_receive_responses`, `deliver_offset` -/
+def sendRequest (w : World) (c r ch rid chunk tag : Nat) : World × String :=
+  let w0 := w
+  let w := clientUpdate w c
+  if w.panicked then ({ w0 with panicked := true }, "PANIC") else
+  match getCl w c, getRcv w (cid c) with
+  | some C, some R =>
+    let w := rcvMapChan w (cid c) ch (fun x => x.setState rid) (SlotMap.items R.storage)
+    let w := retrieveReturned w (cid c)
+    let slots := match getSnd w (cid c) with | some S => S.conns | none => []
+    let msg : Msg := { client := c, channel := ch, rid := rid, tag := tag }
+    let (w, cnt) := deliverAll w (cid c) 0 { chunk := chunk, msg := msg } slots 0
+    let P : Pending := { label := r, rid := rid, channel := ch, chunk := chunk, tag := tag }
+    (setCl w c { C with activeCnt := C.activeCnt + 1, pendings := C.pendings ++ [P], usedLabels := r :: C.usedLabels }, s!"ok:{cnt}")
+  | _, _ => (w, "none")
+
+/-- `Client::loan_uninit` + `write_payload` + `RequestMut::send` -/
+def opSend (w : World) (c r tag : Nat) : World × String :=
+  match getCl w c with
+  | none => (w, "none")
+  | some C0 =>
+    if !C0.alive then (w, "none") else
+    if C0.usedLabels.contains r then (w, "dup") else
+    -- `Client::loan_chunk`: `Sender::allocate`
+    let w := retrieveReturned w (cid c)
+    match getSnd w (cid c) with
     | none => (w, "none")
     | some S =>
-      if !S.alive then (w, "none") else
-      (serverDestroyIfUnreferenced (setSv w s { S with alive := false }) s, "ok")
-  | .send c r tag =>
-    match getCl w c with
+      match S.allocate with
+      | (_, .exceedsMaxLoans) => (w, "err:loan:ExceedsMaxLoans")
+      | (_, .outOfMemory) => (w, "err:loan:OutOfMemory")
+      | (_, .corrupted) => ({ w with panicked := true }, "PANIC")
+      | (S, .ok chunk) =>
+        let w := setSnd w (cid c) S
+        match C0.chanIds with
+        | [] => ({ w with panicked := true }, "PANIC")
+        | ch :: ids =>
+          let rid := C0.ridCtr
+          let C := { C0 with chanIds := ids, ridCtr := C0.ridCtr + 1 }
+          if C.maxActive ≤ C.activeCnt then
+            -- the `RequestMut` is dropped: `release_request`, `return_loaned_chunk`
+            let w := setCl w c { C with chanIds := C.chanIds ++ [ch] }
+            (setSnd w (cid c) (S.returnLoan chunk), "err:send:ExceedsMaxActiveRequests")
+          else sendRequest (setCl w c C) c r ch rid chunk tag
+
+/-- `Server::receive` -/
+def opRecvReq (w : World) (s a : Nat) : World × String :=
+  match getSv w s with
+  | none => (w, "none")
+  | some V0 =>
+    if !V0.alive then (w, "none") else
+    if V0.usedLabels.contains a then (w, "dup") else
+    match serverReceive w s (totalQueued w.conns + 1) with
+    | (_, none) => ({ w with panicked := true }, "PANIC")
+    | (w1, some .none) => (w1, "none")
+    | (w1, some .maxBorrow) => (w1, "err:ExceedsMaxBorrows")
+    | (w1, some (.some h m)) =>
+      match getSv w1 s, getSnd w1 (sid s) with
+      | some V, some S =>
+        let A : Active := { label := a, det := h, connId := connIdOf S.conns (cid m.client) 0, msg := m }
+        (setSv w1 s { V with actives := V.actives ++ [A], usedLabels := a :: V.usedLabels, gRecvReq := V.gRecvReq ++ [(m.client, m.rid)] },
+         s!"some:{h.origin.n}:{m.tag}")
+      | _, _ => (w1, "none")
+
+/-- `ResponseMut::send` and the drop of the `ResponseMut` -/
+def sendResponse (w : World) (s : Nat) (A : Active) (chunk tag : Nat) : World × String :=
+  let w0 := w
+  let w := serverUpdate w s
+  if w.panicked then ({ w0 with panicked := true }, "PANIC") else
+  let stale := match getCl w A.msg.client with | some C => !C.ex | none => true
+  let msg : Msg := { rid := A.msg.rid, server := s, tag := tag, gClient := A.msg.client, gSeq := A.gSent, gStale := stale }
+  let w := match A.connId with
+    | some i =>
+      let w := retrieveReturned w (sid s)
+      match getSnd w (sid s) with
+      | some S =>
+        (match S.conns.getD i none with
+         | some t => (deliverTo w (sid s) t A.msg.channel { chunk := chunk, msg := msg }).1
+         | none => w)
+      | none => w
+    | none => w
+  -- the `ResponseMut` is dropped
+  let w := updActive w s A.label fun x => { x with loans := x.loans - 1, gSent := x.gSent + 1 }
+  let w := match getSnd w (sid s) with
+    | some S => setSnd w (sid s) (S.returnLoan chunk)
+    | none => w
+  (w, "ok")
+
+/-- `ActiveRequest::loan_uninit` + `write_payload` + `ResponseMut::send` -/
+def opRespond (w : World) (s a tag : Nat) : World × String :=
+  match getSv w s with
+  | none => (w, "none")
+  | some V0 =>
+    match findActive V0 a with
     | none => (w, "none")
-    | some C0 =>
-      if !C0.alive then (w, "none") else
-      if C0.usedLabels.contains r then (w, "dup") else
-      -- `Client::loan_chunk`: `Sender::allocate`
-      let w := retrieveReturned w (cid c)
-      match getSnd w (cid c) with
+    | some A =>
+      -- `ActiveRequest::loan_chunk`: `increment_loan_counter`, `Sender::allocate`
+      if V0.loanPerReq ≤ A.loans then (w, "err:loan:ExceedsMaxLoans") else
+      let w := updActive w s a fun x => { x with loans := x.loans + 1 }
+      let w := retrieveReturned w (sid s)
+      match getSnd w (sid s) with
       | none => (w, "none")
       | some S =>
         match S.allocate with
         | (_, .exceedsMaxLoans) => (w, "err:loan:ExceedsMaxLoans")
         | (_, .outOfMemory) => (w, "err:loan:OutOfMemory")
         | (_, .corrupted) => ({ w with panicked := true }, "PANIC")
-        | (S, .ok chunk) =>
-          let w := setSnd w (cid c) S
-          match C0.chanIds with
-          | [] => ({ w with panicked := true }, "PANIC")
-          | ch :: ids =>
-            let rid := C0.ridCtr
-            let C := { C0 with chanIds := ids, ridCtr := C0.ridCtr + 1 }
-            -- `RequestMut::send` -> `ClientSharedState::send_request`
-            if C.maxActive ≤ C.activeCnt then
-              -- the `RequestMut` is dropped: `release_request`, `return_loaned_chunk`
-              let w := setCl w c { C with chanIds := C.chanIds ++ [ch] }
-              (setSnd w (cid c) (S.returnLoan chunk), "err:send:ExceedsMaxActiveRequests")
-            else
-              let w0 := w
-              let w := clientUpdate (setCl w c C) c
-              if w.panicked then ({ w0 with panicked := true }, "PANIC") else
-              match getCl w c, getRcv w (cid c) with
-              | some C, some R =>
-                -- `prepare_channel_to_receive_responses`
-                let w := rcvMapChan w (cid c) ch (fun x => x.setState rid) (SlotMap.items R.storage)
-                let w := retrieveReturned w (cid c)
-                let slots := match getSnd w (cid c) with | some S => S.conns | none => []
-                let msg : Msg := { client := c, channel := ch, rid := rid, tag := tag }
-                let (w, cnt) := deliverAll w (cid c) 0 { chunk := chunk, msg := msg } slots 0
-                let P : Pending := { label := r, rid := rid, channel := ch, chunk := chunk, tag := tag }
-                (setCl w c { C with activeCnt := C.activeCnt + 1, pendings := C.pendings ++ [P], usedLabels := r :: C.usedLabels }, s!"ok:{cnt}")
-              | _, _ => (w, "none")
-  | .recvreq s a =>
-    match getSv w s with
+        | (S, .ok chunk) => sendResponse (setSnd w (sid s) S) s A chunk tag
+
+/-- `ActiveRequest::drop`: `release_offset`, `finish` -/
+def opDActive (w : World) (s a : Nat) : World × String :=
+  match getSv w s with
+  | none => (w, "none")
+  | some V =>
+    match findActive V a with
     | none => (w, "none")
-    | some V0 =>
-      if !V0.alive then (w, "none") else
-      if V0.usedLabels.contains a then (w, "dup") else
-      match serverReceive w s (totalQueued w.conns + 1) with
+    | some A =>
+      let w := setSv w s { V with actives := V.actives.filter (·.label ≠ a) }
+      let w := rcvRelease w (sid s) A.det
+      let w := activeFinish w s A.connId A.msg.channel A.msg.rid
+      (serverDestroyIfUnreferenced w s, "ok")
+
+/-- `PendingResponse::receive` -/
+def opRecvResp (w : World) (c r : Nat) : World × String :=
+  match getCl w c with
+  | none => (w, "none")
+  | some C0 =>
+    match findPending C0 r with
+    | none => (w, "none")
+    | some P =>
+      match pendingReceive w c P.channel P.rid (totalQueued w.conns + 1) with
       | (_, none) => ({ w with panicked := true }, "PANIC")
       | (w1, some .none) => (w1, "none")
       | (w1, some .maxBorrow) => (w1, "err:ExceedsMaxBorrows")
       | (w1, some (.some h m)) =>
-        match getSv w1 s, getSnd w1 (sid s) with
-        | some V, some S =>
-          let A : Active := { label := a, det := h, connId := connIdOf S.conns (cid m.client) 0, msg := m }
-          (setSv w1 s { V with actives := V.actives ++ [A], usedLabels := a :: V.usedLabels, gRecvReq := V.gRecvReq ++ [(m.client, m.rid)] },
+        match getCl w1 c with
+        | none => (w1, "none")
+        | some C =>
+          (setCl w1 c { C with held := C.held ++ [h],
+                               pendings := C.pendings.map fun x => if x.label = r then { x with gRecv := x.gRecv ++ [m] } else x },
            s!"some:{h.origin.n}:{m.tag}")
-        | _, _ => (w1, "none")
-  | .respond s a tag =>
-    match getSv w s with
+
+/-- a `Response` is dropped -/
+def opDResp (w : World) (c k : Nat) : World × String :=
+  match getCl w c with
+  | none => (w, "none")
+  | some C =>
+    match C.held[k]? with
     | none => (w, "none")
-    | some V0 =>
-      match findActive V0 a with
-      | none => (w, "none")
-      | some A =>
-        -- `ActiveRequest::loan_chunk`: `increment_loan_counter`, `Sender::allocate`
-        if V0.loanPerReq ≤ A.loans then (w, "err:loan:ExceedsMaxLoans") else
-        let setA (w : World) (f : Active → Active) : World :=
-          match getSv w s with
-          | some V => setSv w s { V with actives := V.actives.map fun x => if x.label = a then f x else x }
-          | none => w
-        let w := setA w fun x => { x with loans := x.loans + 1 }
-        let w := retrieveReturned w (sid s)
-        match getSnd w (sid s) with
-        | none => (w, "none")
-        | some S =>
-          match S.allocate with
-          | (_, .exceedsMaxLoans) => (w, "err:loan:ExceedsMaxLoans")
-          | (_, .outOfMemory) => (w, "err:loan:OutOfMemory")
-          | (_, .corrupted) => ({ w with panicked := true }, "PANIC")
-          | (S, .ok chunk) =>
-            let w0 := w
-            let w := setSnd w (sid s) S
-            -- `ResponseMut::send`
-            let w := serverUpdate w s
-            if w.panicked then ({ w0 with panicked := true }, "PANIC") else
-            let stale := match getCl w A.msg.client with | some C => !C.ex | none => true
-            let msg : Msg := { rid := A.msg.rid, server := s, tag := tag, gClient := A.msg.client, gSeq := A.gSent,
-                               gStale := stale }
-            let w := match A.connId with
-              | some i =>
-                let w := retrieveReturned w (sid s)
-                match getSnd w (sid s) with
-                | some S =>
-                  (match S.conns.getD i none with
-                   | some t => (deliverTo w (sid s) t A.msg.channel { chunk := chunk, msg := msg }).1
-                   | none => w)
-                | none => w
-              | none => w
-            -- the `ResponseMut` is dropped
-            let w := setA w fun x => { x with loans := x.loans - 1, gSent := x.gSent + 1 }
-            let w := match getSnd w (sid s) with
-              | some S => setSnd w (sid s) (S.returnLoan chunk)
-              | none => w
-            (w, "ok")
-  | .dactive s a =>
-    match getSv w s with
+    | some h =>
+      let w := setCl w c { C with held := C.held.eraseIdx k }
+      let w := rcvRelease w (cid c) h
+      (clientDestroyIfUnreferenced w c, "ok")
+
+/-- `PendingResponse::drop`: counter, `close`; then the `RequestMut`: `release_request`, `return_loaned_chunk` -/
+def opDPending (w : World) (c r : Nat) : World × String :=
+  match getCl w c with
+  | none => (w, "none")
+  | some C =>
+    match findPending C r with
     | none => (w, "none")
-    | some V =>
-      match findActive V a with
-      | none => (w, "none")
-      | some A =>
-        -- `ActiveRequest::drop`: `release_offset`, `finish`
-        let w := setSv w s { V with actives := V.actives.filter (·.label ≠ a) }
-        let w := rcvRelease w (sid s) A.det
-        let w := activeFinish w s A.connId A.msg.channel A.msg.rid
-        (serverDestroyIfUnreferenced w s, "ok")
-  | .recvresp c r =>
-    match getCl w c with
+    | some P =>
+      let w := setCl w c { C with activeCnt := C.activeCnt - 1, pendings := C.pendings.filter (·.label ≠ r),
+                                  chanIds := C.chanIds ++ [P.channel] }
+      let w := match getRcv w (cid c) with
+        | some R => rcvMapChan w (cid c) P.channel (fun x => x.close P.rid) (SlotMap.items R.storage)
+        | none => w
+      let w := match getSnd w (cid c) with
+        | some S => setSnd w (cid c) (S.returnLoan P.chunk)
+        | none => w
+      (clientDestroyIfUnreferenced w c, "ok")
+
+/-- `PendingResponse::is_connected` -/
+def opConnected (w : World) (c r : Nat) : World × String :=
+  match getCl w c with
+  | none => (w, "none")
+  | some C =>
+    match findPending C r, getRcv w (cid c) with
+    | some P, some R =>
+      (w, if rcvAnyChan w (cid c) P.channel (fun x => x.hasState P.rid) (SlotMap.items R.storage) then "true" else "false")
+    | _, _ => (w, "none")
+
+/-- `ActiveRequest::is_connected` -/
+def opAConnected (w : World) (s a : Nat) : World × String :=
+  match getSv w s with
+  | none => (w, "none")
+  | some V =>
+    match findActive V a with
     | none => (w, "none")
-    | some C0 =>
-      match findPending C0 r with
-      | none => (w, "none")
-      | some P =>
-        match pendingReceive w c P (totalQueued w.conns + 1) with
-        | (_, none) => ({ w with panicked := true }, "PANIC")
-        | (w1, some .none) => (w1, "none")
-        | (w1, some .maxBorrow) => (w1, "err:ExceedsMaxBorrows")
-        | (w1, some (.some h m)) =>
-          match getCl w1 c with
-          | none => (w1, "none")
-          | some C =>
-            (setCl w1 c { C with held := C.held ++ [h],
-                                 pendings := C.pendings.map fun x => if x.label = r then { x with gRecv := x.gRecv ++ [m] } else x },
-             s!"some:{h.origin.n}:{m.tag}")
-  | .dresp c k =>
-    match getCl w c with
+    | some A =>
+      (w, match activeChan w s A.connId A.msg.channel with
+          | some x => if x.hasState A.msg.rid then "true" else "false"
+          | none => "false")
+
+/-- `PendingResponse::set_disconnect_hint` -/
+def opHint (w : World) (c r : Nat) : World × String :=
+  match getCl w c with
+  | none => (w, "none")
+  | some C =>
+    match findPending C r, getRcv w (cid c) with
+    | some P, some R => (rcvMapChan w (cid c) P.channel (fun x => x.setHint P.rid) (SlotMap.items R.storage), "ok")
+    | _, _ => (w, "none")
+
+/-- `ActiveRequest::has_disconnect_hint` -/
+def opAHint (w : World) (s a : Nat) : World × String :=
+  match getSv w s with
+  | none => (w, "none")
+  | some V =>
+    match findActive V a with
     | none => (w, "none")
-    | some C =>
-      match C.held[k]? with
-      | none => (w, "none")
-      | some h =>
-        let w := setCl w c { C with held := C.held.eraseIdx k }
-        let w := rcvRelease w (cid c) h
-        (clientDestroyIfUnreferenced w c, "ok")
-  | .dpending c r =>
-    match getCl w c with
-    | none => (w, "none")
-    | some C =>
-      match findPending C r with
-      | none => (w, "none")
-      | some P =>
-        -- `PendingResponse::drop`: counter, `close`; then the `RequestMut`: `release_request`, `return_loaned_chunk`
-        let w := setCl w c { C with activeCnt := C.activeCnt - 1, pendings := C.pendings.filter (·.label ≠ r),
-                                    chanIds := C.chanIds ++ [P.channel] }
-        let w := match getRcv w (cid c) with
-          | some R => rcvMapChan w (cid c) P.channel (fun x => x.close P.rid) (SlotMap.items R.storage)
-          | none => w
-        let w := match getSnd w (cid c) with
-          | some S => setSnd w (cid c) (S.returnLoan P.chunk)
-          | none => w
-        (clientDestroyIfUnreferenced w c, "ok")
-  | .connected c r =>
-    match getCl w c with
-    | none => (w, "none")
-    | some C =>
-      match findPending C r, getRcv w (cid c) with
-      | some P, some R =>
-        (w, if rcvAnyChan w (cid c) P.channel (fun x => x.hasState P.rid) (SlotMap.items R.storage) then "true" else "false")
-      | _, _ => (w, "none")
-  | .aconnected s a =>
-    match getSv w s with
-    | none => (w, "none")
-    | some V =>
-      match findActive V a with
-      | none => (w, "none")
-      | some A =>
-        (w, match activeChan w s A.connId A.msg.channel with
-            | some x => if x.hasState A.msg.rid then "true" else "false"
-            | none => "false")
-  | .hint c r =>
-    match getCl w c with
-    | none => (w, "none")
-    | some C =>
-      match findPending C r, getRcv w (cid c) with
-      | some P, some R => (rcvMapChan w (cid c) P.channel (fun x => x.setHint P.rid) (SlotMap.items R.storage), "ok")
-      | _, _ => (w, "none")
-  | .ahint s a =>
-    match getSv w s with
-    | none => (w, "none")
-    | some V =>
-      match findActive V a with
-      | none => (w, "none")
-      | some A =>
-        (w, match activeChan w s A.connId A.msg.channel with
-            | some x => if x.hasHint A.msg.rid then "true" else "false"
-            | none => "false")
-  | .has c r =>
-    match getCl w c with
-    | none => (w, "none")
-    | some C =>
-      match findPending C r, getRcv w (cid c) with
-      | some P, some R =>
-        (w, if rcvAnyChan w (cid c) P.channel (fun x => !x.sub.isEmpty) (SlotMap.items R.storage) then "true" else "false")
-      | _, _ => (w, "none")
-  | .hasreq s =>
-    match getSv w s with
-    | none => (w, "none")
-    | some V0 =>
-      if !V0.alive then (w, "none") else
-      let w1 := serverUpdate w s
-      if w1.panicked then ({ w with panicked := true }, "PANIC") else
-      match getRcv w1 (sid s) with
-      | none => (w1, "none")
-      | some R =>
-        let items := SlotMap.items R.storage
-        -- `has_chunks` / `has_chunks_in_active_connection`
-        let items := if w1.cfg.ff then items else items.filter fun e => R.conns.contains (some e.1)
-        (w1, if rcvAnyChan w1 (sid s) 0 (fun x => !x.sub.isEmpty) items then "true" else "false")
-  | .updC c =>
-    match getCl w c with
-    | none => (w, "none")
-    | some C => if !C.alive then (w, "none") else finishPanic w (clientUpdate w c, "ok")
-  | .updS s =>
-    match getSv w s with
-    | none => (w, "none")
-    | some V => if !V.alive then (w, "none") else finishPanic w (serverUpdate w s, "ok")
+    | some A =>
+      (w, match activeChan w s A.connId A.msg.channel with
+          | some x => if x.hasHint A.msg.rid then "true" else "false"
+          | none => "false")
+
+/-- `PendingResponse::has_response` -/
+def opHas (w : World) (c r : Nat) : World × String :=
+  match getCl w c with
+  | none => (w, "none")
+  | some C =>
+    match findPending C r, getRcv w (cid c) with
+    | some P, some R =>
+      (w, if rcvAnyChan w (cid c) P.channel (fun x => !x.sub.isEmpty) (SlotMap.items R.storage) then "true" else "false")
+    | _, _ => (w, "none")
+
+/-- `Server::has_requests` -/
+def opHasReq (w : World) (s : Nat) : World × String :=
+  match getSv w s with
+  | none => (w, "none")
+  | some V0 =>
+    if !V0.alive then (w, "none") else
+    let w1 := serverUpdate w s
+    if w1.panicked then ({ w with panicked := true }, "PANIC") else
+    match getRcv w1 (sid s) with
+    | none => (w1, "none")
+    | some R =>
+      let items := SlotMap.items R.storage
+      -- `has_chunks` / `has_chunks_in_active_connection`
+      let items := if w1.cfg.ff then items else items.filter fun e => R.conns.contains (some e.1)
+      (w1, if rcvAnyChan w1 (sid s) 0 (fun x => !x.sub.isEmpty) items then "true" else "false")
+
+def opUpdC (w : World) (c : Nat) : World × String :=
+  match getCl w c with
+  | none => (w, "none")
+  | some C => if !C.alive then (w, "none") else finishPanic w (clientUpdate w c, "ok")
+
+def opUpdS (w : World) (s : Nat) : World × String :=
+  match getSv w s with
+  | none => (w, "none")
+  | some V => if !V.alive then (w, "none") else finishPanic w (serverUpdate w s, "ok")
+
+def step (w : World) : Op → World × String
+  | .cclient c ma => opCClient w c ma
+  | .dclient c => opDClient w c
+  | .cserver s ml => opCServer w s ml
+  | .dserver s => opDServer w s
+  | .send c r tag => opSend w c r tag
+  | .recvreq s a => opRecvReq w s a
+  | .respond s a tag => opRespond w s a tag
+  | .dactive s a => opDActive w s a
+  | .recvresp c r => opRecvResp w c r
+  | .dresp c k => opDResp w c k
+  | .dpending c r => opDPending w c r
+  | .connected c r => opConnected w c r
+  | .aconnected s a => opAConnected w s a
+  | .hint c r => opHint w c r
+  | .ahint s a => opAHint w s a
+  | .has c r => opHas w c r
+  | .hasreq s => opHasReq w s
+  | .updC c => opUpdC w c
+  | .updS s => opUpdS w s
 
 /-! ### reachability -/
 
